@@ -5,6 +5,7 @@ import ScyllaVerif.Model.FrameStream
 import ScyllaVerif.Model.ConnIO
 import ScyllaVerif.Model.ConnSched
 import ScyllaVerif.Model.Response
+import ScyllaVerif.Model.FrameHdr
 /-! Line-protocol driver for C02 (and the connection half of C10).
 
 * `map <op>;<op>;…`   — hook level: `ResponseHandlerMap` operations
@@ -156,6 +157,11 @@ structure ConnSt where
   evChan : EvChan := { room := 1000000000 }   -- its event channel (mode 0: drained; 1: receiver gone; 2: one slot)
   preferTick : Bool := false    -- the draw of `select!` when a tick is due and a hint is stored (`KaSt.preferTick`)
   orphTimes : List (Nat × Nat) := []   -- orphaned stream id ↦ when it was orphaned (`OrphanageTracker`)
+  -- `WriteCoalescingDelay::Milliseconds(ms)` (`writer` 1741-1747): after a write that found the queue empty the writer
+  -- SLEEPS `ms` of virtual time before it looks at the queue again; what it wrote stays in the 8 KiB `BufWriter`
+  -- (`hidden` from the server) until a wake-up finds the queue empty and the batch is flushed
+  coalMs : Option Nat := none
+  wSleep : Option Nat := none   -- the writer sleeps until this time
   granted : List Nat := []      -- parked callers to which tokio's semaphore has assigned freed capacity; they still
                                 -- sit in `reserve()` (model: `sending`) until they are polled (`enqueue`)
 
@@ -192,7 +198,7 @@ def takeN : Nat → ConnSt → ConnSt
     let st' := match written with
       | some s =>
         if st.writeFail then st1
-        else if st.gateClosed then { st1 with hiddenLog := s :: st.hiddenLog, hidden := st.hidden + 1 }
+        else if st.gateClosed || st.coalMs.isSome then { st1 with hiddenLog := s :: st.hiddenLog, hidden := st.hidden + 1 }
         else { st1 with srv := s :: st.srv }
       | none => st1
     takeN n st'
@@ -213,6 +219,21 @@ def routerTurn (st : ConnSt) : ConnSt :=
       let k := kaTurn (toKa st i t)
       { install st k.c with kaNext := k.next, kaPending := k.pending, kaHint := k.hint }
   let st1 :=
+    match st.coalMs with
+    | some ms =>
+      -- the `Milliseconds` arm: write what is queued, sleep; on waking write what has queued up meanwhile and sleep
+      -- again, or - nothing queued - flush the batch and go back to `recv().await`
+      if st.c.broken then st else
+      match st.wSleep with
+      | none =>
+        if st.c.queue.isEmpty then st
+        else { takeN st.c.queue.length st with wSleep := some (st.clock + ms) }
+      | some d =>
+        if st.clock < d then st
+        else if st.c.queue.isEmpty then
+          { st with srv := st.hiddenLog ++ st.srv, hidden := 0, hiddenLog := [], wSleep := none }
+        else { takeN st.c.queue.length st with wSleep := some (st.clock + ms) }
+    | none =>
     if st.c.broken || st.blocked || st.c.queue.isEmpty then st else
     let st' := takeN st.c.queue.length st
     if st.writeFail then via st' (.break_ .writeError)
@@ -243,11 +264,15 @@ def noteBodies (st : ConnSt) : ConnSt :=
     (answerOf st.c fs r).map fun f => (r, tagStr f.body)
   { st with bodies := new ++ st.bodies }
 
-/-- `parse_response(..)` yields `Response::Event`: the EVENT opcode and a body that C08's model of
-`EventV2::deserialize` accepts (frames with body extensions - flags - are not used on the event stream here). -/
+/-- `parse_response(..)` yields `Response::Event` (`connection.rs:1896`): the EVENT opcode; the body extensions that
+the frame's flags announce are stripped first exactly as for any response (`parse_response_body_extensions`,
+`frame/mod.rs:216-269`, C08's model `parseExt`: TRACING = a 16-byte id, WARNING = a string list, CUSTOM_PAYLOAD = a
+bytes map, in this order; unknown flag bits are ignored); the COMPRESSION flag is an error on these connections (no
+compression was negotiated: `NoCompressionNegotiated`); what remains must be accepted by C08's model of
+`EventV2::deserialize`. -/
 def eventOk (f : Frame) : Bool :=
-  f.opcode == 0x0C && f.flags == 0 &&
-    match (ScyllaVerif.C08.run ScyllaVerif.C08.deserEvent f.body).1 with
+  f.opcode == 0x0C && !(ScyllaVerif.C08.hasFlag f.flags.toNat ScyllaVerif.C08.FLAG_COMPRESSION) &&
+    match (ScyllaVerif.C08.run (do let _ ← ScyllaVerif.C08.parseExt f.flags.toNat; ScyllaVerif.C08.deserEvent) f.body).1 with
     | .ok _ => true
     | _ => false
 
@@ -416,6 +441,15 @@ def runConnFrom (st0 : ConnSt) (ops : List String) : String :=
 
 def runConn (ops : List String) : String := runConnFrom { c := Conn.init } ops
 
+/-- `conn m<ms> …`: the writer coalesces with `WriteCoalescingDelay::Milliseconds(ms)` (hook
+`RawConnection::spawn_with_coalescing`). The schedule ends with two sleeps' worth of virtual time (the writer wakes,
+writes what queued up, wakes again and flushes). No gate / write-failure / raw-frame operations in this form. -/
+def runConnMs (ms : Nat) (ops : List String) : String :=
+  if ms == 0 || ms > 1000 then "bad-case" else
+  if ops.any (fun o => o.startsWith "g" || o.startsWith "G" || o.startsWith "w" || o.startsWith "u" ||
+      o.startsWith "b") then "bad-case" else
+  runConnFrom { c := Conn.init, coalMs := some ms } (ops ++ [s!"t{ms}", s!"t{ms}"])
+
 /-- The same with an event sender registered. -/
 def runConnEv (mode : Nat) (ops : List String) : String :=
   let ch : EvChan := if mode == 1 then { closed := true, room := 0 } else if mode == 2 then { room := 1 }
@@ -434,6 +468,19 @@ def runConnKa (interval timeout : Nat) (ops : List String) (impl : String) : Str
   let l0 := runConnKaWith false interval timeout ops
   if l0 == impl then l0 else
   let l1 := runConnKaWith true interval timeout ops
+  if l1 == impl then l1 else l0
+
+/-- An event sender AND keep-alive (the control connection's configuration): `conne <wc>/<mode>/<I>/<T>`. -/
+def runConnKaEv (mode interval timeout : Nat) (ops : List String) (impl : String) : String :=
+  let ch : EvChan := if mode == 1 then { closed := true, room := 0 } else if mode == 2 then { room := 1 }
+    else { room := 1000000000 }
+  let line (preferTick : Bool) : String :=
+    runConnFrom { c := Conn.init, events := true, evChan := ch, ka := some (interval, timeout), kaNext := interval,
+                  preferTick := preferTick }
+      (ops ++ List.replicate ((interval + timeout) / 100 + 3) "t100")
+  let l0 := line false
+  if l0 == impl then l0 else
+  let l1 := line true
   if l1 == impl then l1 else l0
 
 def splitOps (s : String) : List String := (s.splitOn ";").filter (· ≠ "")
@@ -456,7 +503,13 @@ def run (case _impl : String) : String :=
   match words case with
   | ["map", ops] => runMap (splitOps ops)
   | ["map"] => runMap []
-  | ["conn", wc, ops] => if wc == "0" || wc == "1" then runConn (splitOps ops) else "bad-case"
+  | ["conn", wc, ops] =>
+    if wc == "0" || wc == "1" then runConn (splitOps ops)
+    else if wc.startsWith "m" then
+      match (wc.drop 1).toNat? with
+      | some ms => runConnMs ms (splitOps ops)
+      | none => "bad-case"
+    else "bad-case"
   | ["conn", wc] => if wc == "0" || wc == "1" then runConn [] else "bad-case"
   -- `connx`: the schedule language of `conn`, judged by the harness oracles only (schedules with the whole stream-id
   -- space in flight, whose model line would take minutes; the thorough tier runs them as `conn` too)
